@@ -773,7 +773,7 @@ func TestVerifC09History(t *testing.T) {
 	ctx := context.Background()
 	names := []corev1.ResourceName{extension.BatchCPU, extension.BatchMemory, extension.MidCPU, extension.MidMemory}
 	n := h.N(250, 1500)
-	loggedFrozen, loggedNil := false, false
+	loggedNil := false
 	for idx := 0; idx < n; idx++ {
 		r := h.Begin(idx)
 		if r == nil {
@@ -918,17 +918,22 @@ func TestVerifC09History(t *testing.T) {
 			} else if lastSync < 0 || vnow-lastSync > s.interval {
 				h.Fail("C09:sync-interval-exceeded", "round %d (%s): node not written although the last write is %ds old (interval %ds)", k, what, vnow-lastSync, s.interval)
 			}
-			// candidate noticed by reading, TAG ONLY (not part of the verdict): the NUMA-zone batch amounts on the
-			// NodeResourceTopology object after a round that withdrew the node-level amounts
-			if zc, zm, ok := c09hZoneBatch(ctx, c); ok {
+			// NUMA-zone amounts obey the same rule as the node-level ones: a round that withdraws the node-level batch amounts
+			// (stale / missing NodeMetric, disabled colocation) leaves every zone of the NodeResourceTopology object with
+			// batch-cpu / batch-memory zero or absent (repaired by 437c681; fingerprint C09:zone-stale-published)
+			zc, zm, zok := c09hZoneBatch(ctx, c)
+			if stale {
+				clear := !zok || (zc <= 0 && zm <= 0)
+				h.Obs("zonesclear %d", vB(clear))
+				if !clear {
+					h.Fail("C09:zone-stale-published", "round %d (%s): metric stale/missing or colocation disabled, the node carries (%d,%d,%d,%d) but a NodeResourceTopology zone still carries batch-cpu %d batch-memory %d",
+						k, what, pub[0], pub[1], pub[2], pub[3], zc, zm)
+				}
+			}
+			if zok {
 				switch {
 				case stale && (zc > 0 || zm > 0):
 					h.Tag("nrt-zones:withdrawn-round-still-published")
-					if !loggedFrozen {
-						loggedFrozen = true
-						t.Logf("C09 candidate (zone amounts frozen): case %d round %d (%s): node carries (%d,%d,%d,%d) but an NRT zone still carries batch-cpu %d batch-memory %d",
-							idx, k, what, pub[0], pub[1], pub[2], pub[3], zc, zm)
-					}
 				case stale:
 					h.Tag("nrt-zones:withdrawn-round-zero-or-absent")
 				case zc >= 0 || zm >= 0:
